@@ -45,6 +45,27 @@ def routes(dim, call, sigma):
     import spatialmath.base as base
     form = call["form"]
     pts = [[c * sigma for c in p] for p in call["pts"]]
+    if call["op"] == "compose":
+        ha, hb, mode = call["a"], call["b"], call["mode"]
+        P = np.array(pts[0][:dim], dtype=float)
+        if dim == 3:
+            mk = {"SE3": lambda h: SE3(gamma.T4(h, sigma)), "SO3": lambda h: SO3(gamma.R3(h)),
+                  "UnitQuaternion(q)": lambda h: UnitQuaternion(gamma.qvec(h)),
+                  "UnitQuaternion(R)": lambda h: UnitQuaternion(SO3(gamma.R3(h))),
+                  "UnitDualQuaternion": lambda h: UnitDualQuaternion(SE3(gamma.T4(h, sigma)))}
+            full = {"SE3", "UnitDualQuaternion"}
+        else:
+            mk = {"SE2": lambda h: SE2(gamma.T3(h, sigma)), "SO2": lambda h: SO2(gamma.T3(h)[:2, :2])}
+            full = {"SE2"}
+        for name, f in mk.items():
+            which = "full" if name in full else "rot"
+            if mode == "(XY)p":
+                yield name + ":(X*Y)*p", (lambda f=f: (f(ha) * f(hb)) * P), which
+            elif mode == "X(Yp)":
+                yield name + ":X*(Y*p)", (lambda f=f: f(ha) * np.asarray(f(hb) * P).flatten()), which
+            elif name != "UnitDualQuaternion":
+                yield name + ":X.inv()*(X*p)", (lambda f=f: f(ha).inv() * np.asarray(f(ha) * P).flatten()), which
+        return
     if call["op"] == "one-to-many":
         h = call["pose"]
         if form == "matrix":
@@ -56,6 +77,7 @@ def routes(dim, call, sigma):
             yield "SE3*", (lambda: SE3(T) * P), "full"
             yield "SO3*", (lambda: SO3(R) * P), "rot"
             yield "UnitQuaternion*", (lambda: UnitQuaternion(q) * P), "rot"
+            yield "UnitQuaternion(R)*", (lambda: UnitQuaternion(SO3(R)) * P), "rot"
             if form != "matrix":
                 yield "UnitDualQuaternion*", (lambda: UnitDualQuaternion(SE3(T)) * P), "full"
                 if form in ("list", "tuple", "array"):
@@ -86,6 +108,10 @@ def run_case(j, dim, e, sigma):
     exp_full = rat(e["out"], sigma)[:dim, :]
     exp_rot = rat(e["outR"], sigma)[:dim, :]
     mag = max(1e-300, float(np.max(np.abs(exp_full))), float(np.max(np.abs(np.array(call["pts"], dtype=float)))) * sigma)
+    if call["op"] == "compose":
+        # intermediate translations also set the data magnitude of the expression
+        for h in (call["a"], call["b"]):
+            mag = max(mag, gamma.tscale(h, sigma=sigma))
     many = call["op"] == "many-to-one"
     for label, thunk, which in routes(dim, call, sigma):
         exp = exp_full if which == "full" else exp_rot
